@@ -15,7 +15,7 @@ pub const WORDS: &[&str] = &[
 pub const NUMBERS: &[&str] = &["2", "10", "9.5", "-3", "0", "7", "100", "3.25", "-10", "42"];
 pub const DIRS: &[&str] = &["a", "b", "src", "docs", "my dir", "v1.2", "lib", "pkg"];
 pub const STEMS: &[&str] = &[
-    "main", "util", "x", "mod", "data", "conf", "app", "b", "my file", "v2.conf", "a", "[id]", "{slug}",
+    "main", "util", "x", "mod", "data", "conf", "app", "b", "my file", "v2.conf", "a", "[id]", "{slug}", "odd\\name",
 ];
 pub const HASH_EXTS: &[&str] = &["py", "rb", "sh"];
 pub const WRAP_EXTS: &[&str] = &["rs", "js", "go", "ts", "java", "cs", "c", "cpp", "swift", "php", "toml"];
@@ -537,6 +537,7 @@ impl<'a> Gen<'a> {
             let nb = self.rng.range(cfg.blocks.0, cfg.blocks.1);
             let mut f = FileSpec {
                 path: p.clone(),
+                tab_tags: self.rng.chance(1, 10),
                 ..Default::default()
             };
             for _ in 0..nb {
@@ -764,6 +765,17 @@ impl<'a> Gen<'a> {
     }
 
     pub fn finish(mut self) -> (World, Plan) {
+        // a backslash is an ordinary file-name character on Unix, but git quotes such paths in
+        // diffs (C-style, in double quotes) and it is the escape character of globs: keep those
+        // files out of the diff and out of name-based globs
+        for f in &mut self.world.files {
+            if f.path.contains('\\') && !matches!(f.diff, FileDiff::None) {
+                f.diff = FileDiff::None;
+            }
+        }
+        let has_backslash = |g: &String| g.contains('\\');
+        self.world.args.globs.retain(|g| !has_backslash(g));
+        self.world.args.ignore.retain(|g| !has_backslash(g));
         if self.uses_ai() {
             self.ensure_ai_env();
         }
